@@ -17,6 +17,9 @@ inductive ROp
   | register (m : PM)
   | unregister (d : String)
   | lookup (host : String)
+  | unregId (id : String)                 -- UnregisterByMappingID
+  | rebuild (l : List PM)                 -- Rebuild (startup / reload): the map is replaced
+  | avail (sub base : String)             -- IsSubdomainAvailable
 deriving DecidableEq, Repr
 
 inductive RRes
@@ -24,10 +27,11 @@ inductive RRes
   | err (code : String)
   | found (id : String) (client : Nat)
   | notFound
+  | flag (b : Bool)
 deriving DecidableEq, Repr
 
 inductive RPC
-  | idle | rCheck | rBase | rLock | rStore | uLock | lLock
+  | idle | rCheck | rBase | rLock | rStore | uLock | lLock | iLock | bLock | aLock
 deriving DecidableEq, Repr
 
 structure RConfig where
@@ -78,6 +82,16 @@ def stepRegister (cf : RConfig) (reg : String → Option PM) (m : PM) (pc : RPC)
   | .rStore => (upd reg m.fullDomain (some m), .idle, some .ok)
   | _ => (reg, .idle, some (.err "BADPC"))
 
+/-- `Rebuild`: a fresh map, filled in list order (later entries overwrite earlier ones of the same name). -/
+def rebuildReg (l : List PM) : String → Option PM :=
+  l.foldl (fun acc m => if m.fullDomain == "" then acc else upd acc m.fullDomain (some m)) (fun _ => none)
+
+/-- `UnregisterByMappingID` (every mapping ID is registered under at most one name: management never renames). -/
+def dropById (reg : String → Option PM) (id : String) : String → Option PM :=
+  fun d => match reg d with
+    | some m => if m.ID == id then none else some m
+    | none => none
+
 def stepROp (cf : RConfig) (reg : String → Option PM) (o : ROp) (pc : RPC) : (String → Option PM) × RPC × Option RRes :=
   match o with
   | .register m => stepRegister cf reg m pc
@@ -93,6 +107,21 @@ def stepROp (cf : RConfig) (reg : String → Option PM) (o : ROp) (pc : RPC) : (
       match reg (extractDomain host) with
       | some m => (reg, .idle, some (.found m.ID m.client))
       | none => (reg, .idle, some .notFound)
+    | _ => (reg, .idle, some (.err "BADPC"))
+  | .unregId id =>
+    match pc with
+    | .idle => (reg, .iLock, none)
+    | .iLock => (dropById reg id, .idle, some .ok)
+    | _ => (reg, .idle, some (.err "BADPC"))
+  | .rebuild l =>
+    match pc with
+    | .idle => (reg, .bLock, none)
+    | .bLock => (rebuildReg l, .idle, some .ok)
+    | _ => (reg, .idle, some (.err "BADPC"))
+  | .avail sub base =>
+    match pc with
+    | .idle => (reg, .aLock, none)
+    | .aLock => (reg, .idle, some (.flag (reg (sub ++ "." ++ base)).isNone))
     | _ => (reg, .idle, some (.err "BADPC"))
 
 def stepRThread (cf : RConfig) (c : RCfg) (t : Nat) : RCfg × RSlot :=
@@ -126,30 +155,53 @@ def modelReg (i : RInput) : List RSlot := (runRSched i.cf (initRCfg i) (i.sched 
 
 /-! ### the property on observations -/
 
+/-- What an in-flight removal may take away: one name, one mapping ID, or everything (rebuild). -/
+inductive Blocker
+  | dom (d : String)
+  | id (x : String)
+  | all
+deriving DecidableEq, Repr
+
+def Blocker.blocks : Blocker → String × String → Bool
+  | .dom d, o => o.1 == d
+  | .id x, o => o.2 == x
+  | .all, _ => true
+
+def blockerOf : ROp → Option Blocker
+  | .unregister d => some (.dom d)
+  | .unregId x => some (.id x)
+  | .rebuild _ => some .all
+  | _ => none
+
 structure RMon where
   ok : Bool := true
-  /-- `(full domain, mapping ID)`: a `Register` of this ID for this name returned nil while no `Unregister` of the
-  name was in flight, and no `Unregister` of the name has been invoked since -/
+  /-- `(full domain, mapping ID)`: a `Register` of this ID for this name returned nil while no removal that could
+  take it away was in flight, and no such removal has been invoked since -/
   owners : List (String × String) := []
-  /-- `Unregister` calls in flight: `(thread, full domain)` -/
-  unregFly : List (Nat × String) := []
+  /-- removals in flight (Unregister / UnregisterByMappingID / Rebuild): `(thread, what it may take away)` -/
+  blockers : List (Nat × Blocker) := []
 
-def rMonInv (m : RMon) (t : Nat) : ROp → RMon
-  | .unregister d => { m with owners := m.owners.filter (·.1 != d), unregFly := (t, d) :: m.unregFly }
-  | _ => m
+def rMonInv (m : RMon) (t : Nat) (o : ROp) : RMon :=
+  match blockerOf o with
+  | some b => { m with owners := m.owners.filter (fun x => !b.blocks x), blockers := (t, b) :: m.blockers }
+  | none => m
 
 def rMonRet (m : RMon) (t : Nat) (o : ROp) (r : RRes) : RMon :=
   match o, r with
   | .register pm, .ok =>
     { m with
       ok := m.ok && !(m.owners.any (fun x => x.1 == pm.fullDomain && x.2 != pm.ID))
-      owners := if m.unregFly.any (·.2 == pm.fullDomain) then m.owners
+      owners := if m.blockers.any (fun b => b.2.blocks (pm.fullDomain, pm.ID)) then m.owners
                 else (pm.fullDomain, pm.ID) :: m.owners.filter (·.1 != pm.fullDomain) }
-  | .unregister _, _ => { m with unregFly := m.unregFly.filter (·.1 != t) }
+  | .unregister _, _ => { m with blockers := m.blockers.filter (·.1 != t) }
+  | .unregId _, _ => { m with blockers := m.blockers.filter (·.1 != t) }
+  | .rebuild _, _ => { m with blockers := m.blockers.filter (·.1 != t) }
   | .lookup host, .found id _ =>
     { m with ok := m.ok && m.owners.all (fun x => !(x.1 == extractDomain host) || x.2 == id) }
   | .lookup host, .notFound =>
     { m with ok := m.ok && !(m.owners.any (fun x => x.1 == extractDomain host)) }
+  | .avail sub base, .flag true =>
+    { m with ok := m.ok && !(m.owners.any (fun x => x.1 == sub ++ "." ++ base)) }
   | _, _ => m
 
 def rMonSlot (m : RMon) (s : RSlot) : RMon :=
@@ -162,7 +214,8 @@ def rMonSlot (m : RMon) (s : RSlot) : RMon :=
 
 /-- **Single owner in the registry**: two `Register` calls for the same full domain with different mapping IDs are
 never both told "registered" while the first still owns the name (no `Unregister` of it invoked in between), however
-the calls interleave; and `LookupByHost` answers with the owner, or "not found" only when nobody owns the name. -/
+the calls interleave; `LookupByHost` answers with the owner, or "not found" only when nobody owns the name;
+`IsSubdomainAvailable` says "available" only when nobody owns the name. -/
 def holdsReg (slots : List RSlot) : Bool := (slots.foldl rMonSlot {}).ok
 
 end Tunnox.C19
